@@ -11,14 +11,66 @@ PROPS["C20"] = dict(
     technique="lock-step differential PBT against std:: (string_view, unique_ptr, shared_ptr, variant), slice model "
               "(span) and direct invocation (function_ref); instance counting; rapidcheck",
     rule="Cases are choice streams decoded into operation programs that are run on both sides.",
+    generators="sv: 1-3 exact-size buffers over a 10-byte alphabet (NUL, 0x7f/0x80/0xff), 4 view slots, 1-16 operations "
+               "(slice, from std::string / C string, compare 5 overloads, relational incl. mixed operands, find, substr, hash, "
+               "operator<<) with positions/counts at, around and far beyond the end. span: 3 backing regions, 3 dynamic slots, "
+               "constructors from (ptr,count) (first,last) vector C-array std::array, copy, read/write, static extents 0-4 "
+               "(incl. span<const T>(span<T,N>)), slices rebuilt from data()+offset (this header version has no "
+               "first/last/subspan). uptr: 4 base slots, 2+1 derived slots (single base at offset 0 / second polymorphic "
+               "base at a non-zero offset), array slot, a std::unique_ptr, 2 owning chains of nodes, 1-24 operations: make, "
+               "reset, =nullptr, move (incl. self), swap (incl. self), release, derived-to-base conversions, from/to "
+               "std::unique_ptr, array forms, list push/pop/pop-second/splice, ownership cycles (object owning itself, two "
+               "objects owning each other, closed chain) opened by release() or "
+               "destroyed through one of their own links, and pointees that look at / reset their owner from their "
+               "destructor. sptr: 4 slots + derived slots (offset 0 / non-zero offset) + const slot + "
+               "2 std::shared_ptr co-owners, copy/move/swap (incl. self), =nullptr, conversions, from unique_ptr, link / "
+               "advance (copy, move, through =nullptr) / unlink, ownership cycles destroyed through one of their own links "
+               "(=nullptr, =move(empty), swap(empty), =move(new), link moved out). fref: 12 callables (function, pointer, "
+               "functors, lambdas, functions of convertible-but-different signature, noexcept pointer, another function_ref "
+               "of a different signature), bind / copy / call / pass by value. variant: 3 x variant<monostate,int,string,"
+               "Tracked,double>, 2 x variant<int,string,int>, 2 x a 16-alternative variant with AttributeValue's arithmetic / "
+               "pointer / view alternatives and comparable placeholders at the span positions, 1 x exactly AttributeValue's "
+               "alternative list; emplace / converting construction and assignment from 20 (+21 for the AttributeValue list: "
+               "containers -> span alternatives) argument types, copy / move / swap, get / get_if by index and type over all "
+               "16 indices, unary and binary visit (6x4 through the unrolled switch, 17x4 and 6x6 through the matrix), "
+               "relational operators, throwing construction / copy (valueless state).",
+    oracle="the std type run in lock-step on the same program (string_view, unique_ptr, shared_ptr, variant), an "
+           "index-checked (pointer,length) slice model (span), a directly invoked twin of every callable (function_ref); the "
+           "complete observable state of both sides is rendered to text after every step and must be identical; pointees "
+           "are instance counted (live set, constructions, destructions, double destruction, destructor re-entered for the "
+           "same object) and every managed object must be destroyed exactly once by the end of the case. Hashing: equal "
+           "views hash equal, unordered_set insertion parity, and two views hash alike exactly when they do with "
+           "std::hash<std::string_view> (pairs of slots and close neighbours: one byte shorter, one NUL longer, last byte / "
+           "first byte behind an embedded NUL changed). For the 16-alternative variants the alternative the reference "
+           "selects is additionally checked against a table (harness self-check of the 'both rules agree' assumption).",
     assumptions=[
         "configuration under test is WITH_STL=OFF (nostd internal implementations; variant = absl-internal copy); "
         "the harness refuses to build otherwise",
         "only what this version of the headers offers is compared; operations std leaves undefined (out-of-range "
         "index, reset(get()), dereferencing null, self-move of a variant, static-extent size mismatch) are never generated",
         "operator<< is compared on streams in their default formatting state",
+        "span: this version of nostd/span.h offers no first()/last()/subspan() (detection idiom, tag "
+        "subviews-not-offered:*), so the 'subspans' clause is decided on slices rebuilt from the span's own "
+        "data()/begin()/end()/size(); constructors the header does not offer (span<const T> from std::array<T,N>, "
+        "static extent from a container of another size) are not compared",
+        "string_view hash: the hash VALUES are not compared with std's; compared is the collision pattern (two views hash "
+        "alike iff they do with std::hash<std::string_view>) on pairs of slots and on close neighbours of a view - with a "
+        "64-bit size_t an accidental collision of a sound hash is not expected within any feasible budget",
+        "unique_ptr/shared_ptr ownership cycles: only forms that are well defined for the reference are generated - a "
+        "link of a cycle is given up by reset()/=nullptr/move assignment/swap/release, never by COPY assignment of a "
+        "shared_ptr (libstdc++'s copy assignment releases the old control block before it stores the new one); pointees "
+        "observe their owner only during reset / assignment, never during the owner's destructor",
+        "finding C20-uptr-reset-order (nostd::unique_ptr::reset deleted before it stored the new pointer) is fixed in /repo "
+        "(73d00ce); its shapes - an ownership cycle destroyed through a nostd::unique_ptr member of one of its objects, pointees "
+        "whose destructor looks at or resets the unique_ptr that manages them - are generated",
+        "function_ref: a noexcept FUNCTION (not pointer) cannot be bound in C++17 at all (does not compile), so only the "
+        "noexcept function pointer is exercised; a function_ref bound to a temporary function_ref is not generated "
+        "(dangling by design: function_ref does not own)",
         "variant converting construction/assignment is compared only for argument types on which the C++17 rule "
-        "and the later P0608 rule select the same alternative",
+        "and the later P0608/P1957 rule select the same alternative (bool, char, short, int, unsigned, long, unsigned "
+        "long, float, double, char array, const char*, string_view, std::string, exact alternative types, std::vector<T> / "
+        "span<T> for the span alternatives; NOT: long long, raw arrays of non-char (decay to pointer -> bool under the "
+        "C++17 rule), const char* into a variant without a pointer alternative)",
         "reference-side workaround: libstdc++ 12's variant::swap with exactly one valueless operand leaves both "
         "operands holding the value (contrary to [variant.swap]); for that shape only, the std side performs the "
         "exchange with three moves",
